@@ -335,3 +335,11 @@ func init() {
 		mutant{Name: "promoted-method-first-hit", Prop: "C05", File: "interp/type.go", Old: "\t\t\t\tif n, index2 := f.typ.lookupMethod2(name, cloneSeen(seen)); n != nil && (m == nil || len(index2)+1 < len(index)) {\n\t\t\t\t\tm, index = n, append([]int{i}, index2...)\n\t\t\t\t}\n", New: "\t\t\t\tif n, index2 := f.typ.lookupMethod2(name, seen); n != nil {\n\t\t\t\t\treturn n, append([]int{i}, index2...)\n\t\t\t\t}\n", Rule: "R05.18", Key: "itype.lookupMethod2/fields-loop#1/shallowest-candidate-kept"},
 	)
 }
+
+func init() {
+	addMutants(
+		// D104 reverted
+		mutant{Name: "declared-function-returned-as-a-node", Prop: "C01", File: "interp/run.go", Old: "\t\t\t// A declared function is returned as a function value.\n\t\t\tvalues[i] = genFuncValue(c)\n", New: "\t\t\tvalues[i] = genValue(c)\n", Rule: "R01.34", Key: "_return/func-typed-result/declared-function-wrapped"},
+		mutant{Name: "named-function-test-on-the-type-node-alone", Prop: "C01", File: "interp/run.go", Old: "\t\tif isNamedFunc(src) {\n", New: "\t\tif isNamedFuncSrc(src.typ) {\n", Rule: "R01.34", Key: "package/type-node-test-not-used-alone"},
+	)
+}
